@@ -7,7 +7,6 @@ import (
 
 	"github.com/ipld/go-ipld-prime"
 	"github.com/ipld/go-ipld-prime/datamodel"
-	"github.com/ipld/go-ipld-prime/must"
 )
 
 // Match determines if the IPLD node satisfies the policy.
@@ -94,7 +93,7 @@ func matchStatement(cur Statement, node ipld.Node) (_ matchResult, leafMost Stat
 			if res == nil { // optional selector didn't match
 				return matchResultOptionalNoData, nil
 			}
-			return boolToRes(datamodel.DeepEqual(s.value, res))
+			return boolToRes(deepEqual(s.value, res))
 		}
 	case KindGreaterThan:
 		if s, ok := cur.(equality); ok {
@@ -266,6 +265,17 @@ func matchStatement(cur Statement, node ipld.Node) (_ matchResult, leafMost Stat
 	panic(fmt.Errorf("unimplemented statement kind: %s", cur.Kind()))
 }
 
+// deepEqual is datamodel.DeepEqual, except that nodes it can't compare (it panics on an unsigned
+// integer above MaxInt64) are not equal.
+func deepEqual(x, y ipld.Node) (res bool) {
+	defer func() {
+		if r := recover(); r != nil {
+			res = false
+		}
+	}()
+	return datamodel.DeepEqual(x, y)
+}
+
 // isOrdered compares two IPLD nodes and returns true if they satisfy the given ordering function.
 // It supports comparison of integers and floats, returning false for:
 //   - Nodes of different or unsupported kinds
@@ -279,8 +289,15 @@ func matchStatement(cur Statement, node ipld.Node) (_ matchResult, leafMost Stat
 //   - For "<=" it returns true when order is -1 or 0
 func isOrdered(expected ipld.Node, actual ipld.Node, satisfies func(order int) bool) bool {
 	if expected.Kind() == ipld.Kind_Int && actual.Kind() == ipld.Kind_Int {
-		a := must.Int(actual)
-		b := must.Int(expected)
+		// AsInt fails for an unsigned integer above MaxInt64: not comparable
+		a, err := actual.AsInt()
+		if err != nil {
+			return false
+		}
+		b, err := expected.AsInt()
+		if err != nil {
+			return false
+		}
 
 		return satisfies(cmp.Compare(a, b))
 	}
